@@ -17,6 +17,19 @@
 #define C15_H
 #include "vx.h"
 
+/* Units that decide only the "same pair" / "in mask" claims (P_PAIR) leave the index obligations and the sum
+ * bookkeeping to their sibling unit (P_BOUNDS) over the same lifted text: both switches only REMOVE obligations /
+ * knowledge, they never add an assumption. */
+#ifdef VX_NO_IDX_ASSERT
+#define VX_IDX_ASSERT(c, msg) ((void) 0)
+#else
+#define VX_IDX_ASSERT(c, msg) VX_ASSERT(c, msg)
+#endif
+#ifdef VX_NO_SUM
+#define VX_SUM_KNOWN_AT_MAKE(init) false
+#else
+#define VX_SUM_KNOWN_AT_MAKE(init) ((init) == 0)
+#endif
 #define VX_MIN(a, b) ((a) < (b) ? (a) : (b))
 #define VX_MAX(a, b) ((a) > (b) ? (a) : (b))
 
@@ -107,17 +120,17 @@ static struct mask vx_other_mask(void)
 }
 static struct mask vx_aff_get(struct maskvec *v, size_t i)
 {
-  VX_ASSERT(i < v->size, "affinities[i]: index within the vector");
+  VX_IDX_ASSERT(i < v->size, "affinities[i]: index within the vector");
   return i == g_k ? g_k_mask : vx_other_mask();
 }
 static void vx_aff_set(struct maskvec *v, size_t i, struct mask m)
 {
-  VX_ASSERT(i < v->size, "affinities[i]: index within the vector");
+  VX_IDX_ASSERT(i < v->size, "affinities[i]: index within the vector");
   if (i == g_k) { g_k_mask = m; g_k_cell = g_pi_last_victim; }
 }
 static void vx_npu_set(struct szvec *v, size_t i, size_t x)
 {
-  VX_ASSERT(i < v->size, "num_pus[i]: index within the vector");
+  VX_IDX_ASSERT(i < v->size, "num_pus[i]: index within the vector");
   if (i == g_k) g_k_pun = x;
 }
 /* vector::resize(n): new elements are value-initialised */
@@ -163,11 +176,11 @@ static size_t g_jv;              /* victim position inside pu_indexes[g_cv] */
 #define VXVEC_MAKE(N, INIT) ({ struct vxvec vx_v; size_t vx_init = (INIT); \
   vx_v.size = (N); vx_v.v_val = vx_init; \
   vx_v.c_valid = false; vx_v.c_idx = 0; vx_v.c_val = 0; \
-  vx_v.sum_known = (vx_init == 0); vx_v.total = 0; vx_v.zero_from = 0; \
+  vx_v.sum_known = VX_SUM_KNOWN_AT_MAKE(vx_init); vx_v.total = 0; vx_v.zero_from = 0; \
   vx_v.scan_valid = false; vx_v.scan_pos = 0; vx_v.scan_prefix = 0; \
   vx_v; })
 #define VXVEC_GET(V, I) ({ size_t vx_i = (I); size_t vx_r; \
-  VX_ASSERT(vx_i < (V).size, "local vector: index within the vector"); \
+  VX_IDX_ASSERT(vx_i < (V).size, "local vector: index within the vector"); \
   if ((V).c_valid && (V).c_idx == vx_i) \
   { \
     /* a scan may start at a cached element 0 */ \
@@ -193,7 +206,7 @@ static size_t g_jv;              /* victim position inside pu_indexes[g_cv] */
   } \
   vx_r; })
 #define VXVEC_SET(V, I, X) ({ size_t vx_i = (I); size_t vx_x = (X); \
-  VX_ASSERT(vx_i < (V).size, "local vector: index within the vector"); \
+  VX_IDX_ASSERT(vx_i < (V).size, "local vector: index within the vector"); \
   if ((V).sum_known) \
   { \
     if (vx_i == (V).zero_from && vx_x <= SIZE_MAX - (V).total) { (V).zero_from++; (V).total += vx_x; } \
@@ -203,7 +216,7 @@ static size_t g_jv;              /* victim position inside pu_indexes[g_cv] */
   if (vx_i == g_cv) (V).v_val = vx_x; \
   (V).c_valid = true; (V).c_idx = vx_i; (V).c_val = vx_x; (void) 0; })
 #define VXVEC_INC(V, I) ({ size_t vx_i = (I); \
-  VX_ASSERT(vx_i < (V).size, "local vector: index within the vector"); \
+  VX_IDX_ASSERT(vx_i < (V).size, "local vector: index within the vector"); \
   if ((V).sum_known) \
   { \
     if ((V).total == SIZE_MAX) (V).sum_known = false; else (V).total++; \
@@ -223,7 +236,7 @@ struct vxvec2 { size_t size; size_t v_size; size_t v_val; bool c_valid; size_t c
   vx_v.size = (N); vx_v.v_size = 0; vx_v.v_val = 0; vx_v.c_valid = false; vx_v.c_i = 0; vx_v.c_j = 0; vx_v.c_val = 0; \
   vx_v; })
 #define VXVEC2_PUSH(V, I, X) ({ size_t vx_i = (I); size_t vx_x = (X); \
-  VX_ASSERT(vx_i < (V).size, "pu_indexes[i]: index within the vector"); \
+  VX_IDX_ASSERT(vx_i < (V).size, "pu_indexes[i]: index within the vector"); \
   if (vx_i == g_cv) \
   { \
     if ((V).v_size == g_jv) (V).v_val = vx_x; \
@@ -231,8 +244,8 @@ struct vxvec2 { size_t size; size_t v_size; size_t v_val; bool c_valid; size_t c
     (V).v_size++; \
   } (void) 0; })
 #define VXVEC2_GET(V, I, J) ({ size_t vx_i = (I); size_t vx_j = (J); size_t vx_r; \
-  VX_ASSERT(vx_i < (V).size, "pu_indexes[i]: index within the vector"); \
-  VX_ASSERT(vx_i != g_cv || vx_j < (V).v_size, "pu_indexes[i][j]: position within the inner vector"); \
+  VX_IDX_ASSERT(vx_i < (V).size, "pu_indexes[i]: index within the vector"); \
+  VX_IDX_ASSERT(vx_i != g_cv || vx_j < (V).v_size, "pu_indexes[i][j]: position within the inner vector"); \
   g_pi_last_victim = (vx_i == g_cv && vx_j == g_jv); \
   if (g_pi_last_victim) vx_r = (V).v_val; \
   else if ((V).c_valid && (V).c_i == vx_i && (V).c_j == vx_j) vx_r = (V).c_val; \
